@@ -117,8 +117,9 @@ PROPERTY = {
                 "observing real delivery to a filtered layer, and the three implications are judged on the implementation's own answers. Whole stacks: stack_interest_sound (pick_interest + FilterState interest "
                 "accumulation) and stack_hint_sound (pick_level_hint) over stacks of plain / global-filter / per-layer-filtered layers; real stacks (and_then trees and .with() chains) are driven through a front end that applies "
                 "the macros' gates — level against the published max-level hint, then the cached interest — and what every layer receives is compared with the model and with the summary-free specification.",
-        'note': "Trusted: Lean kernel; propext/Classical.choice/Quot.sound; user closures are honest as the code's own debug_assert!s demand (hypothesis Honest); EnvFilter with span-scoped directives as a leaf and Vec / Option layer "
-                "wrappers are not in the stack model (C09 erases the wrappers). Known findings F6 (Vec register_callsite), F8 (EnvFilter [span]=level) are stack/EnvFilter-level.",
+        'note': "Trusted: Lean kernel; propext/Classical.choice/Quot.sound; user closures are honest as the code's own debug_assert!s demand (hypothesis Honest); EnvFilter with span-scoped directives as a leaf is not in the expression model (C11 models the filter itself); pass-through wrappers, None "
+                "layers and empty Vecs are erased by the stack model and exercised by stream stackwrapped (None / empty layers only in stacks without per-layer-filtered layers: finding F32, DESIGN 12.8). "
+                "Repaired on the way: F31 (an empty Vec capped its neighbours' hint at OFF). Known findings F6 (Vec register_callsite), F8 (EnvFilter [span]=level) are stack/EnvFilter-level.",
         'technique': 'Lean 4 proof (structural induction on the expression type) + differential run against the real combinators',
     },
     'lean_module': 'TracingModel.Props.C08S',
